@@ -3,7 +3,7 @@
    instance of the model on the same ops and reports the first op whose observable differs
    (bit-exact, NaN canonicalised), then compares the byte images of the final states. *)
 From Coq Require Import Floats String.
-From TA Require Import Base Model Generic FloatOps.
+From TA Require Import Base Model Generic FloatInst.
 Open Scope N_scope.
 
 Definition fop := @op float.
@@ -25,6 +25,8 @@ Definition oC (s d : nat) : fop := OClone s d.
 Definition oS (s : nat) : fop := OSerde s.
 Definition oP (s : nat) : fop := OProbe s.
 Definition oK (s : nat) : fop := ODrop s.
+Definition oU (calls : list (Setter * float)) : fop := OBuild calls.
+Definition bB (o h l c v : float) : fobs := BBuilt (mkBar o h l c v).
 
 Definition b1 (x : float) : fobs := BOut [x].
 Arguments b1 x%float.
@@ -52,6 +54,9 @@ Definition obs_eqb (a b : fobs) : bool :=
   | BOut x, BOut y => beq_list x y
   | BProbe k1 a1 m1 p1, BProbe k2 a2 m2 p2 =>
       Kind_eqb k1 k2 && list_eqb N.eqb a1 a2 && opt_eqb beq m1 m2 && opt_eqb N.eqb p1 p2
+  | BBuilt x, BBuilt y =>
+      beq (b_open x) (b_open y) && beq (b_high x) (b_high y) && beq (b_low x) (b_low y) &&
+      beq (b_close x) (b_close y) && beq (b_volume x) (b_volume y)
   | _, _ => false end.
 
 Record case := mkCase { c_ops : list fop; c_exp : list fobs; c_img : list (nat * N * N) }.
@@ -88,6 +93,7 @@ Definition dump_obs (o : fobs) : list N :=
   | BOut l => 5 :: map float_bits l
   | BProbe _ a m p => 6 :: a ++ match m with Some f => [float_bits f] | None => [] end
                         ++ match p with Some n => [n] | None => [] end
+  | BBuilt b => [7; float_bits (b_open b); float_bits (b_high b); float_bits (b_low b); float_bits (b_close b); float_bits (b_volume b)]
   end.
 Definition dump_case (c : case) : list (list N) :=
   map dump_obs (snd (run FOps [] (c_ops c))).
